@@ -712,7 +712,7 @@ func cmdCheck(args []string) {
 				remain := time.Until(deadline)
 				wa := []string{"-prop", j.b.prop, "-tier", tier, "-seed", strconv.FormatUint(seed, 10), "-from", strconv.Itoa(j.from), "-to", strconv.Itoa(j.to),
 					"-budget-ms", strconv.Itoa(int(remain / time.Millisecond)), "-avoid", j.b.avoid}
-				wo, err := runWorker(j.b.bin, tmp, ji, wa, remain+3*time.Minute, j.b.race)
+				wo, err := runWorker(j.b.bin, tmp, ji, wa, remain+8*time.Minute, j.b.race)
 				mu.Lock()
 				if err != nil {
 					if werr == nil {
